@@ -16,30 +16,36 @@ EXTENDS Naturals, Sequences, TLC, Json
 
 CONSTANTS Sizes,        \* sizes a single write call may have (0 = empty write)
           MaxCalls,
-          IgnoreEmptyWrites   \* TRUE: the code as repaired (an empty write emits nothing)
+          IgnoreEmptyWrites,  \* TRUE: the code as repaired (an empty write emits nothing)
+          CloseOnDrop         \* TRUE: a variant whose chunked writer terminates the body when it is dropped (rejected)
 
 VARIABLES calls,     \* the write calls the body will still issue
           issued,    \* sizes of the calls issued so far
           chunks,    \* chunk sizes emitted so far (chunked framing)
           mode,      \* "chunked" | "length"
           raw,       \* octets emitted unframed (length framing)
-          closed
-vars == <<calls, issued, chunks, mode, raw, closed>>
+          closed,
+          failed     \* the body's source failed: its write() returned an error, write_request returns it (`?`)
+vars == <<calls, issued, chunks, mode, raw, closed, failed>>
 
 Seqs == UNION {[1..k -> Sizes] : k \in 0..MaxCalls}
-Init == /\ calls \in Seqs /\ issued = <<>> /\ chunks = <<>> /\ raw = 0 /\ closed = FALSE
+Init == /\ calls \in Seqs /\ issued = <<>> /\ chunks = <<>> /\ raw = 0 /\ closed = FALSE /\ failed = FALSE
         /\ mode \in {"chunked", "length"}
 
-Write == /\ calls # <<>> /\ ~closed
+Write == /\ calls # <<>> /\ ~closed /\ ~failed
          /\ LET n == Head(calls) IN
             /\ issued' = Append(issued, n)
             /\ IF mode = "chunked"
                THEN /\ chunks' = IF n = 0 /\ IgnoreEmptyWrites THEN chunks ELSE Append(chunks, n)
                     /\ raw' = raw
                ELSE /\ raw' = raw + n /\ chunks' = chunks
-         /\ calls' = Tail(calls) /\ UNCHANGED <<mode, closed>>
-Close == /\ calls = <<>> /\ ~closed /\ closed' = TRUE /\ UNCHANGED <<calls, issued, chunks, mode, raw>>
-Next == Write \/ Close
+         /\ calls' = Tail(calls) /\ UNCHANGED <<mode, closed, failed>>
+Close == /\ calls = <<>> /\ ~closed /\ ~failed /\ closed' = TRUE /\ UNCHANGED <<calls, issued, chunks, mode, raw, failed>>
+\* the source fails before any of the remaining calls (also when none is left: an error from a final flush or seek)
+Fail  == /\ ~closed /\ ~failed /\ failed' = TRUE /\ UNCHANGED <<calls, issued, chunks, mode, raw, closed>>
+\* the rejected variant: dropping the chunked writer on the error path still writes the terminating chunk
+DropCloses == /\ CloseOnDrop /\ failed /\ ~closed /\ mode = "chunked" /\ closed' = TRUE /\ UNCHANGED <<calls, issued, chunks, mode, raw, failed>>
+Next == Write \/ Close \/ Fail \/ DropCloses
 Spec == Init /\ [][Next]_vars
 
 RECURSIVE Sum(_)
@@ -50,12 +56,15 @@ RECURSIVE Decoded(_)
 Decoded(cs) == IF cs = <<>> \/ Head(cs) = 0 THEN 0 ELSE Head(cs) + Decoded(Tail(cs))
 
 ZeroChunkOnlyTerminates == \A i \in 1..Len(chunks) : chunks[i] > 0
-BodyDecodesBack == closed => (IF mode = "chunked" THEN Decoded(chunks) = Sum(issued) ELSE raw = Sum(issued))
+BodyDecodesBack == (closed /\ ~failed) => (IF mode = "chunked" THEN Decoded(chunks) = Sum(issued) ELSE raw = Sum(issued))
+\* a body whose source failed is never terminated: the peer must see that the upload is incomplete
+TruncatedNeverTerminated == failed => ~closed
 
-Emit == closed => PrintT(<<"REPLAY", ToJson([kind |-> "loop", seed |-> 21,
+Emit == (closed \/ failed) => PrintT(<<"REPLAY", ToJson([kind |-> "loop", seed |-> 21,
    req |-> [method |-> "PUT",
             url |-> [sch |-> "http", host |-> "w.test", labels |-> <<"w", "test">>, kind |-> "domain", port |-> 0, path |-> <<"up">>, q |-> "-"],
-            body |-> [kind |-> "custom", len |-> Sum(issued), writes |-> issued, chunked |-> (mode = "chunked"), flush_every |-> Len(issued) % 3],
+            body |-> [kind |-> "custom", len |-> Sum(issued) + Sum(calls), writes |-> issued \o calls, chunked |-> (mode = "chunked"),
+                      flush_every |-> Len(issued) % 3, fail_at |-> IF failed THEN Len(issued) + 1 ELSE 0],
             headers |-> <<>>, params |-> <<>>],
    settings |-> [follow |-> FALSE, maxRedir |-> 0, proxy |-> [disabled |-> FALSE, http |-> [sch |-> "-"], https |-> [sch |-> "-"], noproxy |-> <<>>]],
    nodes |-> <<>>, connect |-> [status |-> 200, valid |-> TRUE]])>>)
